@@ -2,7 +2,7 @@
    property oracle of C01.  Everything the OCaml runner of this property
    executes goes through run_case. *)
 From Coq Require Import ZArith List String.
-From ST Require Import Base.Ints Base.Value Base.F64 Model.NtpTime Model.Units Model.Ftm Model.Sync Extract.GlueBase.
+From ST Require Import Base.Ints Base.Value Base.F64 Model.NtpTime Model.Units Model.Ftm Model.Sync Model.SyncConfig Extract.GlueBase.
 Import ListNotations.
 Open Scope string_scope.
 Open Scope Z_scope.
@@ -66,6 +66,14 @@ Fixpoint events_of_values (l : list value) : option (list event) :=
           | _ => None
           end
       end
+  end.
+
+(* one TOML setting: [] = key omitted, [bits] = float64 value *)
+Definition setting_of_value (v : value) : option (option f64) :=
+  match v with
+  | VL [] => Some None
+  | VL [VZ b] => Some (Some (f_of_bits b))
+  | _ => None
   end.
 
 Definition glue_C01 (k : string) (a o : list value) : option verdict :=
@@ -136,6 +144,30 @@ Definition glue_C01 (k : string) (a o : list value) : option verdict :=
     match a, o with
     | [VZ drift_ns; VZ d], [VZ r] => Some (functional [VZ (sysclk_drift drift_ns d)] o (C01_drift_ok drift_ns d r))
     | _, _ => None end
+  else if is k "sync.config" then
+    (* the configuration path of the time service: args = the six TOML settings clock_drift, reference_clock_impact,
+       peer_clock_impact, peer_clock_cutoff, sync_timeout, sync_interval, each [] (key omitted) or [bits];
+       observed: fatal, then what clockDrift and syncConfig returned (zeros after a fatal error) *)
+    match a with
+    | [d; rf; pf; cu; tm; iv] =>
+        match setting_of_value d, setting_of_value rf, setting_of_value pf, setting_of_value cu, setting_of_value tm, setting_of_value iv with
+        | Some d, Some rf, Some pf, Some cu, Some tm, Some iv =>
+            let cfg := sync_config rf pf cu tm iv in
+            let expected :=
+              match clock_drift d with
+              | None => [VZ 1; VZ 0; VZ 0; VZ 0; VZ 0; VZ 0; VZ 0]
+              | Some dn => [VZ 0; VZ dn; VZ (f_to_bits (c_ref cfg)); VZ (f_to_bits (c_peer cfg));
+                            VZ (c_cutoff cfg); VZ (c_timeout cfg); VZ (c_interval cfg)]
+              end in
+            match o with
+            | [VZ fatal; VZ od; VZ orf; VZ opf; VZ ocu; VZ otm; VZ oiv] =>
+                Some (functional expected o
+                        (C01_config_ok d rf pf cu tm iv (negb (fatal =? 0)) od (f_of_bits orf) (f_of_bits opf) ocu otm oiv))
+            | _ => Some (functional expected o false)
+            end
+        | _, _, _, _, _, _ => None
+        end
+    | _ => None end
   else None.
 
 Definition run_case (k : string) (a o : list value) : verdict :=
